@@ -33,6 +33,9 @@ theorem Pcap_readLoop_eq_take (chunk : Nat) (hc : 0 < chunk) (rest : Bytes) (tod
 
 /-- the piece size the library uses is positive -/
 example : 0 < READ_CHUNK := by decide
+/-- … and at most 1 MiB: with the bound below, no `read()` of record data allocates more than that, whatever the file
+    says (`READ_CHUNK` is regenerated from the literal in `Pcap.next`; a larger literal fails this theorem) -/
+theorem Pcap_read_chunk_le : READ_CHUNK ≤ 1048576 := by decide
 /-- the hypothesis is needed: with a piece size of 0 the first `read(0)` returns nothing and the loop gives up -/
 example : (readLoop 0 4 [1, 2, 3] 2 [] []).toOption = some ([], [1, 2, 3], [0]) := by decide
 
